@@ -548,6 +548,7 @@ def _h(world: World, kind: str) -> None:
 # (atomic=(): where a call takes effect between invoke and return is unknown), same extra clauses.
 THREAD_OPS = ("serve_bg", "shutdown", "client", "is_serving", "close", "serve", "serve_nst", "client", "shutdown_t", "close")
 SHUTDOWN_TIMEOUTS = (0.0, 1 / 64.0, 8 / 64.0)
+UNTIMED_AS = 4.0
 
 
 class _RecordedServer:
@@ -597,6 +598,12 @@ class _RecordedServer:
         opid = rec.invoke(actor, L.SHUTDOWN)
         run.current[actor] = f"shutdown#{opid}"
         t0 = run.world.now
+        if timeout is None and run.world.avoid_known:
+            # open finding (a shutdown() that did stop its server can still block on the NEXT serve_forever() when another thread
+            # restarts the server before this call reaches its wait: the shutdown event is shared between runs): API.md rule 6 —
+            # the untimed call is issued with a long timeout so that this class ends as "timed_out" instead of a hang; the
+            # remaining runs keep the untimed call.  Drop this block once the event is per serve_forever() call.
+            timeout = UNTIMED_AS
         try:
             self._srv.shutdown(timeout) if timeout is not None else self._srv.shutdown()
         except ThreadAbort:
@@ -923,7 +930,16 @@ class ThreadRun:
 
     def pending_kinds(self) -> str:
         """structural part of a hang key: which kinds of calls were in progress"""
-        return "+".join(sorted({c.split("#")[0] for c in self.current.values()})) or "none"
+        kinds = "+".join(sorted({c.split("#")[0] for c in self.current.values()})) or "none"
+        # a pending shutdown that has already seen "its" serve_forever return: it now waits for a restarted server
+        hist = self.rec.model.history
+        for c in self.current.values():
+            if c.startswith("shutdown#"):
+                opid = int(c.split("#")[1])
+                inv = next((i for i, e in enumerate(hist) if e[1:4] == ("inv", opid, L.SHUTDOWN)), None)
+                if inv is not None and any(e[1] == "ret" and e[3] == L.SERVE and e[4] == L.NONE for e in hist[inv:]):
+                    return kinds + "/restarted"
+        return kinds
 
     def wait_for(self, what: str, pred: Callable[[], bool]) -> None:
         import time
